@@ -245,6 +245,17 @@ impl Driver {
         }
     }
 
+    pub fn declared(&mut self, b: &[u8]) -> Option<String> {
+        self.send(&format!("DECL {}", hex(b)));
+        let _ = self.stdin.flush();
+        let l = self.collect(true).pop().unwrap_or_default();
+        match l.strip_prefix("R ") {
+            Some("NONE") => None,
+            Some(h) => Some(String::from_utf8(unhex(h)).unwrap()),
+            None => panic!("bad DECL answer {l}"),
+        }
+    }
+
     /// items: (encoding, chaos bits, bom, coherence, payload, text)
     pub fn container(
         &mut self,
